@@ -25,6 +25,19 @@ func c08Profiles(tier string) []Profile {
 				Letter{"Revert", func(w *harness.World) { w.Revert() }},
 				Letter{"Reopen", func(w *harness.World) { w.Reopen(true) }},
 				Letter{"SetColl(y,rev)", func(w *harness.World) { w.SetCollection("y", "rev") }})
+			// FlushRevert through a snapshot (read-only store: no truncation)
+			w.ObserveRevertedSnaps = true
+			open := false
+			for i, sn := range w.Snaps {
+				if !sn.Closed && !sn.Reverted {
+					open = true
+					i := i
+					ls = append(ls, Letter{fmt.Sprintf("RevertSnap(s%d)", i), func(w *harness.World) { w.RevertSnap(i) }})
+				}
+			}
+			if !open {
+				ls = append(ls, Letter{"Snap", func(w *harness.World) { w.Snapshot(-1) }})
+			}
 			if _, ok := w.Colls["y"]; ok {
 				ls = append(ls, Letter{"Set(y.a)", func(w *harness.World) { w.SetItem("y", kA, 1, bs("ya")) }},
 					Letter{"Set(y.b)", func(w *harness.World) { w.SetItem("y", kB, 2, bs("yb")) }})
@@ -71,7 +84,7 @@ func c08Profiles(tier string) []Profile {
 		Letters: func(w *harness.World) []Letter { return nil }}
 	return []Profile{
 		sizes.Profile("history [Set Flush, Set Flush, Set(c, value) Flush, FlushRevert, FlushRevert] for every value length 0..4299 x {plain value, value ending in the doubled end marker, value starting and ending with it}: each revert must terminate (step budget), land exactly one flush back, truncate to that flush's root end, and a copy of the file must re-open to the same state"),
-		file.Profile(fmt.Sprintf("every history of length <= %d over Set/Delete of one key, SetCollection(x), SetCollection(y, reverse comparator) with two keys, Flush, FlushRevert, Reopen: zero, one and many flushes, reverts past the first flush, reverts with unflushed changes pending and across re-opens; after every FlushRevert: nil result within the step budget, state = flush stack entry below the top, file length = end of that flush's root record (or 0), and a copy of the file re-opens to the same state", d)),
+		file.Profile(fmt.Sprintf("every history of length <= %d over Set/Delete of one key, SetCollection(x), SetCollection(y, reverse comparator) with two keys, Snapshot and FlushRevert of the snapshot, Flush, FlushRevert, Reopen: zero, one and many flushes, reverts past the first flush, reverts with unflushed changes pending and across re-opens; after every FlushRevert: nil result within the step budget, state = flush stack entry below the top, file length = end of that flush's root record (or 0), and a copy of the file re-opens to the same state", d)),
 		mem.Profile(fmt.Sprintf("every history of length <= %d on a memory-only store: FlushRevert and Flush must return an error and change nothing", dm)),
 	}
 }
